@@ -34,7 +34,12 @@ RULE = ("case = one generated .xml.bz2 dump (10-60 pages; per shard first 3 syst
         "empty, blank-only, up to 2.2 MB, include tags and comments; templates from an include-tag AST; 13 content models; "
         "redirects; duplicates (body / to-redirect / to-dropped-model / identical); helper templates present / redirect / "
         "dropped model / near-miss names; namespace selections {0,10,828} / all / none / random; export-0.10/0.11/no xmlns, "
-        "siteinfo, revision metadata, indentation, multistream bz2, bzcat or python bz2) ingested by both routes. "
+        "siteinfo, revision metadata, indentation, multistream bz2, bzcat or python bz2) ingested by both routes; in ~55% of the "
+        "dumps the ingesting context is NOT fresh: it first answers a seeded handful of page_exists/get_page/get_page_body/"
+        "get_page_resolve_redirect/expand lookups (helper templates ! = (( )), titles the dump is about to define in up to 10 "
+        "spellings, undefined titles) and in ~1/3 of those it has already ingested an earlier small dump into the same database "
+        "(process_dump | parse_dump_xml+add_default_templates | parse_dump_xml alone; own helper templates, duplicates across the two "
+        "dumps: last wins) followed by more lookups -- the expected table is unchanged by reads. "
         "distinct = page list + options; non-trivial = >=1 dump page stored AND >=1 excluded AND >=3 title shapes")
 ASSUMPTIONS = [
     "a redirect page may be stored with body None or with its '#REDIRECT [[..]]' text (statement is silent); target, model, title are checked",
@@ -46,6 +51,9 @@ ASSUMPTIONS = [
     "Scribunto, json; redirects are kept whatever their model (DESIGN.md C12)",
     "characters that XML 1.0 cannot carry are not generated; text nodes stay below libxml2's 10 MB limit (MediaWiki's page limit is 2 MiB)",
     "interwiki map fetch stubbed (no network)",
+    "second ingestion into a non-empty store: rows of the earlier dump stay unless the later dump stores the same (title, ns) "
+    "(last wins); lookups made by the context before/between ingestions are not judged (C10 does that), they must only not "
+    "change what the ingestion stores",
 ]
 WALL = {"quick": 900, "thorough": 5400}
 ROUTES = ("process_dump", "parse_dump_xml")
@@ -71,6 +79,11 @@ def floors(tier):
          "counters.body.large": 5, "counters.body.edge-ws": 100, "counters.body.cdata-end": 50, "counters.body.cr": 50,
          "counters.body.include-markup(non-template)": 100, "counters.tbody.onlyinclude": 30, "counters.tbody.noinclude": 100,
          "counters.title.mainlike-prefix": 20,
+         "counters.ctx.used": 300, "counters.ctx.fresh": 300, "counters.ctx.reads": 1500, "counters.ctx.second-ingestion": 80,
+         "counters.ctx.reads-between-dumps": 40, "counters.ctx.helper-looked-up-before-the-dump-that-defines-it": 15,
+         "counters.ctx.read.page_exists": 200, "counters.ctx.read.get_page": 200, "counters.ctx.read.get_page_body": 200,
+         "counters.ctx.read.expand": 100, "counters.dup.across-dumps": 40, "counters.dup.across-dumps.both-stored": 15,
+         "sets.read_relations": 5, "anchors.Wtp.get_page": 2000,
          "sets.langs": len(G.LANGS), "sets.ns_covered": nspairs, "sets.models": 10, "sets.title_shapes": 14,
          "anchors.dumpparser.parse_dump_xml": 600, "anchors.dumpparser.process_dump": 300,
          "anchors.dumpparser.add_default_templates": 600, "anchors.Wtp.add_page": 10000, "anchors.Wtp._template_to_body": 1000,
@@ -87,9 +100,36 @@ class Runner:
         os.makedirs(self.nopath)
         self.n = 0
         self.runs = 0
+        self.reads_done = 0
+        self.read_raised = {}
 
     def close(self):
         shutil.rmtree(self.dir, ignore_errors=True)
+
+    def do_reads(self, ctx, reads):
+        """Lookups through the public read API; whatever they return (or raise) is not judged here."""
+        if not reads:
+            return
+        try:
+            with cpu_guard(30):
+                for kind, title, ns in reads:
+                    try:
+                        if kind == "page_exists":
+                            ctx.page_exists(title, ns)
+                        elif kind == "get_page":
+                            ctx.get_page(title, ns)
+                        elif kind == "get_page_body":
+                            ctx.get_page_body(title, ns)
+                        elif kind == "resolve":
+                            ctx.get_page_resolve_redirect(title, ns)
+                        elif kind == "expand":
+                            ctx.start_page("Reader page")
+                            ctx.expand(title)
+                        self.reads_done += 1
+                    except Exception as e:
+                        self.read_raised[type(e).__name__] = self.read_raised.get(type(e).__name__, 0) + 1
+        except CpuBudget:
+            self.read_raised["CpuBudget"] = self.read_raised.get("CpuBudget", 0) + 1
 
     def ingest(self, pages, opts, route, second=False):
         """-> {"stored": {(title, ns): rec} | None, "exc": sig | None, "msg", "second": table | None, "rows": n}"""
@@ -100,21 +140,36 @@ class Runner:
         d = os.path.join(self.dir, "r%d" % self.n)
         os.makedirs(d)
         path = os.path.join(d, "dump-pages-articles.xml.bz2")
+        path0 = os.path.join(d, "earlier-pages-articles.xml.bz2")
         dbp = os.path.join(d, "pages.db")
         out = {"stored": None, "exc": None, "msg": "", "second": None, "raw": 0}
         oldpath = os.environ.get("PATH", "")
+        early, main, pre = split_phases(pages, opts)
+
+        def run(rt, pth, sel):
+            if rt == "process_dump":
+                DP.process_dump(ctx, pth, set(sel))
+            else:
+                DP.parse_dump_xml(ctx, pth, set(sel))
+                if rt != "parse_only":
+                    DP.add_default_templates(ctx)
         try:
-            out["raw"] = G.write_dump(path, pages, opts)
+            out["raw"] = G.write_dump(path, main, opts)
+            if pre.get("earlier_route"):
+                G.write_dump(path0, early, opts)
             if opts.get("decomp") == "py":
                 os.environ["PATH"] = self.nopath
             with fresh(title=None, lang_code=opts["lang"], db_path=dbp) as ctx:
                 try:
+                    # a context that is not fresh: it answered lookups / ingested an earlier dump (never changes what
+                    # the dump under test must leave in the store)
+                    self.do_reads(ctx, pre.get("reads0"))
+                    if pre.get("earlier_route"):
+                        with cpu_guard(CPU_S):
+                            run(pre["earlier_route"], path0, pre.get("earlier_selected") or ())
+                        self.do_reads(ctx, pre.get("reads1"))
                     with cpu_guard(CPU_S):
-                        if route == "process_dump":
-                            DP.process_dump(ctx, path, set(opts["selected"]))
-                        else:
-                            DP.parse_dump_xml(ctx, path, set(opts["selected"]))
-                            DP.add_default_templates(ctx)
+                        run(route, path, opts["selected"])
                         out["stored"], dupe = read_store(ctx)
                     if dupe:
                         out["exc"], out["msg"] = "store-has-two-rows-for-one-key", repr(dupe)
@@ -131,6 +186,14 @@ class Runner:
         return out
 
 
+def split_phases(pages, opts):
+    """-> (pages of the earlier dump, pages of the dump under test, pre)"""
+    pre = opts.get("pre") or {}
+    if pre.get("earlier_route"):
+        return [p for p in pages if p.get("phase") == 0], [p for p in pages if p.get("phase") != 0], pre
+    return [], [p for p in pages if p.get("phase") != 0], pre
+
+
 def read_store(ctx):
     stored, dupe = {}, None
     for p in ctx.get_all_pages():
@@ -141,13 +204,27 @@ def read_store(ctx):
     return stored, dupe
 
 
+def expected(pages, opts):
+    """Reference table for (earlier dump, reads, dump under test): reads change nothing; the earlier dump's table is the
+    base on which the dump under test is applied (last wins)."""
+    tp = G.nsdata(opts["lang"])["template"]
+    early, main, pre = split_phases(pages, opts)
+    if pre.get("earlier_route"):
+        base, r0 = M.expected_table(early, pre.get("earlier_selected") or (), tp, defaults=pre["earlier_route"] != "parse_only")
+        table, reasons = M.expected_table(main, opts["selected"], tp, base=base)
+        reasons.update(r0)
+        return table, reasons, early + main
+    table, reasons = M.expected_table(main, opts["selected"], tp)
+    return table, reasons, main
+
+
 def evaluate(runner, pages, opts, route, second=False):
     """Real ingestion vs reference table -> list of diffs (vf.ref.c12_model.diff format)."""
-    table, reasons = M.expected_table(pages, opts["selected"], G.nsdata(opts["lang"])["template"])
+    table, reasons, allp = expected(pages, opts)
     r = runner.ingest(pages, opts, route, second=second)
     if r["exc"] is not None:
         return [{"rule": r["exc"], "key": None, "uids": [], "detail": r["msg"], "exc": True}], table, r
-    diffs = M.diff(pages, table, reasons, r["stored"])
+    diffs = M.diff(allp, table, reasons, r["stored"])
     if second and r["second"] is not None and r["second"] != r["stored"]:
         a, b = r["stored"], r["second"]
         k = sorted(set(a) ^ set(b) or [k for k in a if a[k] != b.get(k)])[:1]
@@ -219,6 +296,32 @@ def body_feats(t):
     return f or ["other"]
 
 
+def _norm_title(lang, t):
+    t = t.replace("_", " ").strip()
+    for i, name in G.nsdata(lang)["names"].items():
+        if i and t.lower().startswith(name.lower() + ":"):
+            t = t[len(name) + 1:]
+            break
+    return t.lower()
+
+
+def read_relation(rd, pages, lang):
+    """What a lookup made before the ingestion was about: helper-template | dump-page | other (+ :expand)."""
+    kind, t, ns = rd
+    suffix = ":expand" if kind == "expand" else ""
+    if kind == "expand":
+        names = re.findall(r"\{\{([^{}|]*)", t)
+    else:
+        names = [t]
+    names = [_norm_title(lang, n) for n in names]
+    if any(n in M.DEFAULTS for n in names):
+        return "helper-template" + suffix
+    have = {_norm_title(lang, p["title"]) for p in pages}
+    if any(n in have for n in names):
+        return "dump-page" + suffix
+    return "other" + suffix
+
+
 def ns_class(lang, ns):
     return G.nsdata(lang)["canon"].get(ns, str(ns))
 
@@ -281,6 +384,8 @@ class Minimiser:
         self.budget = [budget]
 
     def bad(self, pages, opts, route, uid, rule0):
+        # the known Main:-prefix mechanism is kept out of every minimisation step (see split_by_main_prefix)
+        pages = neutralise_main_titles(pages)
         diffs, _, _ = evaluate(self.runner, pages, opts, route, second=rule0.startswith("second-connection"))
         if uid is None:
             # no page of the dump is involved (helper templates, phantom pages, exceptions): same family of rule
@@ -313,6 +418,54 @@ class Minimiser:
                 return [p for p in pages if p["uid"] in keep]
             others = _ddmin(others, lambda sel: test(with_t(sel)), B)
             pages = with_t(others)
+        # A'. what the context did before the ingestion
+        pre = opts.get("pre")
+        if pre:
+            o2 = {k: v for k, v in opts.items() if k != "pre"}
+            pp = [p for p in pages if p.get("phase") != 0]
+            if test(pp, o2):
+                pages, opts, pre = pp, o2, None
+        if pre and pre.get("earlier_route"):
+            allids = sorted(G.nsdata(lang)["names"])
+            for k, v in (("earlier_route", "parse_dump_xml"), ("earlier_selected", allids)):
+                if pre[k] != v:
+                    o2 = dict(opts, pre=dict(pre, **{k: v}))
+                    if test(pages, o2):
+                        opts, pre = o2, o2["pre"]
+            if opts["selected"] != allids:
+                o2 = dict(opts, selected=allids)
+                if test(pages, o2):
+                    opts = o2
+        if pre and pre.get("earlier_route") in ROUTES and any(p.get("phase") == 0 for p in pages):
+            # the earlier ingestion alone (it becomes the ingestion under test)
+            o2 = dict(opts, selected=list(pre["earlier_selected"]),
+                      pre=dict(pre, earlier_route=None, earlier_selected=[], reads1=[]))
+            pp = [{k: v for k, v in p.items() if k != "phase"} for p in pages if p.get("phase") == 0]
+            if test(pp, o2, pre["earlier_route"]):
+                pages, opts, pre, route = pp, o2, o2["pre"], pre["earlier_route"]
+        if pre and pre.get("earlier_route"):
+            # one dump instead of two (all pages in the dump under test, reads kept)
+            o2 = dict(opts, pre=dict(pre, earlier_route=None, earlier_selected=[], reads0=list(pre["reads0"]) + list(pre["reads1"]), reads1=[]))
+            pp = [{k: v for k, v in p.items() if k != "phase"} for p in pages]
+            if test(pp, o2):
+                pages, opts, pre = pp, o2, o2["pre"]
+        if pre:
+            for k in ("reads0", "reads1"):
+                if pre[k]:
+                    rs = _ddmin(pre[k], lambda sel, k=k: test(pages, dict(opts, pre=dict(pre, **{k: sel}))), B)
+                    if rs != pre[k] and test(pages, dict(opts, pre=dict(pre, **{k: rs}))):
+                        pre = dict(pre, **{k: rs})
+                        opts = dict(opts, pre=pre)
+                # the kind of lookup rarely matters: get_page is the neutral one
+                for i, rd in enumerate(pre[k]):
+                    if rd[0] != "get_page" and rd[0] != "expand":
+                        rs = pre[k][:i] + [["get_page", rd[1], rd[2]]] + pre[k][i + 1:]
+                        if test(pages, dict(opts, pre=dict(pre, **{k: rs}))):
+                            pre = dict(pre, **{k: rs})
+                            opts = dict(opts, pre=pre)
+            if not pre["reads0"] and not pre["reads1"] and not pre.get("earlier_route"):
+                opts = {k: v for k, v in opts.items() if k != "pre"}
+                pre = None
         # B. dump options
         for k, v in (("decomp", "bzcat"), ("splits", []), ("xmlns", "0.10"), ("extras", False), ("siteinfo", False),
                      ("indent", False), ("level", 9), ("selected", sorted(G.nsdata(lang)["names"]))):
@@ -397,8 +550,20 @@ class Minimiser:
             o2 = dict(opts)
             o2["lang"] = "en"
             o2["selected"] = [i for i in opts["selected"] if i in G.nsdata("en")["names"]]
+            if o2.get("pre"):
+                def conv(rd):
+                    kind, t, ns = rd
+                    names = G.nsdata(lang)["names"]
+                    for i in ([ns] if ns else sorted(names)):
+                        nm = names.get(i)
+                        if i and nm and t.lower().startswith(nm.lower() + ":") and i in G.nsdata("en")["names"]:
+                            return [kind, G.nsdata("en")["names"][i] + t[len(nm):], ns]
+                    return [kind, t, ns]
+                o2["pre"] = dict(o2["pre"], reads0=[conv(r) for r in o2["pre"]["reads0"]], reads1=[conv(r) for r in o2["pre"]["reads1"]],
+                                 earlier_selected=[i for i in o2["pre"]["earlier_selected"] if i in G.nsdata("en")["names"]])
             if test(pp, o2):
                 pages, opts, lang = pp, o2, "en"
+        pages = neutralise_main_titles(pages)
         # D. route
         other = ROUTES[1 - ROUTES.index(route)]
         route_tag = None if test(pages, opts, other) else route
@@ -420,24 +585,33 @@ class Minimiser:
             if tgt.get("redirect") is not None:
                 tags.append("redirect")
             if tgt["model"] != "wikitext":
-                tags.append("model=" + tgt["model"])
+                tags.append("model=" + (tgt["model"] if tgt["model"] in M.KEPT_MODELS else "(not wikitext/Scribunto/json)"))
             if rest != "P":
                 tags += ["title:" + f for f in title_feats(rest)]
             if tgt.get("redirect") is None and tgt["text"] != "x":
                 tags += ["body:" + f for f in body_feats(tgt["text"])]
+            if tgt.get("phase") == 0 and (opts.get("pre") or {}).get("earlier_route"):
+                tags.append("page-of-earlier-dump")
         ctx = [p for p in pages if tgt is None or p["uid"] != tgt["uid"]]
         if ctx:
             rel = set()
             for c in ctx:
+                e = "earlier-" if c.get("phase") == 0 and (opts.get("pre") or {}).get("earlier_route") else ""
                 if tgt is None:
-                    rel.add("page")
+                    rel.add(e + "page")
                 elif (c["title"], c["ns"]) == (tgt["title"], tgt["ns"]):
-                    rel.add("same-title")
+                    rel.add(e + "same-title")
                 elif c["title"].endswith(tgt["title"]) or tgt["title"].endswith(c["title"]):
-                    rel.add("title-suffix")
+                    rel.add(e + "title-suffix")
                 else:
-                    rel.add("other")
+                    rel.add(e + "other")
             tags.append("with:" + "+".join(sorted(rel)))
+        pre = opts.get("pre") or {}
+        if pre.get("earlier_route"):
+            tags.append("second-ingestion" + ("(earlier=%s)" % pre["earlier_route"] if pre["earlier_route"] != "parse_dump_xml" else ""))
+        for k, name in (("reads0", "after-read"), ("reads1", "after-read-between-dumps")):
+            if pre.get(k):
+                tags.append("%s(%s)" % (name, "+".join(sorted({read_relation(rd, pages, lang) for rd in pre[k]}))))
         if opts["lang"] != "en":
             tags.append("lang=" + opts["lang"])
         for k, dflt in (("xmlns", "0.10"), ("decomp", "bzcat")):
@@ -458,6 +632,48 @@ class Minimiser:
                 "case": {"pages": pages, "opts": opts, "route": route, "uid": renum.get(uid), "rule": d["rule"]}}
 
 
+# ------------------------------------------------------------------ the known Main:-prefix mechanism
+
+# Mechanism signature of the one defect of the pinned tree: add_page() strips a leading "Main:" from every title.
+# A disagreement IS that mechanism when it disappears once every main-namespace title that starts with "Main:" is
+# renamed (the prefix's colon replaced) in the dump -- whatever rule variant (stored under other title / merged / lost /
+# unexpected page / altered partner) and whatever other features the pages have.  Disagreements that persist on the
+# renamed dump are minimised and signed ON THE RENAMED DUMP, so this mechanism can neither mask nor colour them.
+MAIN_PREFIX_SIG = "stored-under-other-title(prefix-dropped)/title:Main-prefix"
+
+
+def has_main_titles(pages):
+    return any(p["ns"] == 0 and p["title"].startswith("Main:") for p in pages)
+
+
+def neutralise_main_titles(pages):
+    out = []
+    for p in pages:
+        if p["ns"] == 0 and p["title"].startswith("Main:"):
+            p = dict(p, title="Main-" + p["title"][5:])   # "Main:Main:x" -> "Main-Main:x": no prefix left at the start
+        out.append(p)
+    return out
+
+
+def split_by_main_prefix(runner, diffs, pages, opts, route, second):
+    """-> (disagreements explained by the Main:-prefix mechanism, (pages2, disagreements that persist without it))"""
+    if not diffs or not has_main_titles(pages):
+        return [], (pages, diffs)
+    pages2 = neutralise_main_titles(pages)
+    diffs2, _, _ = evaluate(runner, pages2, opts, route, second=second)
+    explained = []
+    for d in diffs:
+        if d.get("exc"):
+            gone = not any(x.get("exc") for x in diffs2)
+        elif d["uids"]:
+            gone = not any(d["uids"][0] in x["uids"] for x in diffs2)
+        else:
+            gone = not any(x["rule"] == d["rule"] and x["key"] == d["key"] for x in diffs2)
+        if gone:
+            explained.append(d)
+    return explained, (pages2, diffs2)
+
+
 # ------------------------------------------------------------------ one dump
 
 class Monitor:
@@ -467,6 +683,7 @@ class Monitor:
         self.obs = obs
         self.runner = Runner()
         self.memo = {}
+        self.main_case = None
         self.min_spent = 0.0
         self.min_budget = {"quick": 150.0, "thorough": 1500.0}.get(tier, 150.0)
         anchors.watch({"dumpparser.parse_dump_xml": DP.parse_dump_xml, "dumpparser.process_dump": DP.process_dump,
@@ -474,7 +691,8 @@ class Monitor:
                        "dumpparser.decompress_dump_file": DP.decompress_dump_file,
                        "dumpparser.analyze_and_overwrite_pages": DP.analyze_and_overwrite_pages,
                        "Wtp.add_page": Wtp.add_page, "Wtp._template_to_body": Wtp._template_to_body,
-                       "Wtp.get_all_pages": Wtp.get_all_pages, "Wtp.page_exists": Wtp.page_exists})
+                       "Wtp.get_all_pages": Wtp.get_all_pages, "Wtp.page_exists": Wtp.page_exists,
+                       "Wtp.get_page": Wtp.get_page, "Wtp.get_page_body": Wtp.get_page_body, "Wtp.expand": Wtp.expand})
 
     def close(self):
         self.runner.close()
@@ -483,17 +701,40 @@ class Monitor:
         """Memo key of a disagreement: rule + the raw features that can matter for it."""
         uid = d["uids"][0] if d["uids"] else None
         p = next((x for x in pages if x["uid"] == uid), None)
+        pre = opts.get("pre") or {}
+        used = (bool(pre.get("reads0") or pre.get("reads1")), bool(pre.get("earlier_route")))
         if p is None:
-            return (d["rule"], route)
+            return (d["rule"], route, used)
         fe = info["feats"].get(uid, set())
         _, rest = split_title(opts["lang"], p)
         key = [d["rule"], d.get("hint", ""), ns_class(opts["lang"], p["ns"]) if p["ns"] in (0, 10, 828) else "other-ns", p["model"],
                p.get("redirect") is not None] + sorted(f for f in fe if f.startswith(("title:", "dup:"))) + title_feats(rest)
         if d["rule"].startswith("altered"):
             key += sorted(f for f in fe if f.startswith(("body:", "tbody:")))
+        key += [used, p.get("phase")] + sorted(f for f in fe if f.startswith("xdup:"))
         return tuple(key)
 
-    def handle(self, diffs, pages, opts, info, route, gen):
+    def main_prefix_case(self, pages, opts, route):
+        """A small witness of the Main:-prefix mechanism taken from this dump (checked once per shard)."""
+        if self.main_case is None:
+            w = [{"uid": 0, "title": "Main:baz", "ns": 0, "model": "wikitext", "text": "x", "redirect": None}]
+            o = {"lang": "en", "selected": sorted(G.nsdata("en")["names"]), "xmlns": "0.10", "siteinfo": False, "extras": False,
+                 "indent": False, "splits": [], "decomp": "bzcat", "level": 9}
+            d, _, _ = evaluate(self.runner, w, o, route)
+            if d and split_by_main_prefix(self.runner, d, w, o, route, False)[0]:
+                self.main_case = {"pages": w, "opts": o, "route": route, "uid": 0, "rule": d[0]["rule"]}
+            else:
+                small = [q if len(q["text"]) < 2000 else dict(q, text=q["text"][:2000]) for q in pages]
+                return {"pages": small, "opts": opts, "route": route, "uid": None, "rule": "main-prefix"}
+        return self.main_case
+
+    def handle(self, diffs, pages, opts, info, route, gen, second=False):
+        explained, (pages2, diffs) = split_by_main_prefix(self.runner, diffs, pages, opts, route, second)
+        for d in explained:
+            self.obs.count("disagreements-explained-by-Main-prefix")
+            self.obs.violation(MAIN_PREFIX_SIG, d["detail"] + " || disappears when the main-namespace titles starting with 'Main:' are renamed",
+                               self.main_prefix_case(pages, opts, route))
+        pages = pages2   # what persists is minimised and signed on the dump WITHOUT such titles
         for d in diffs:
             ck = self.coarse(d, pages, opts, info, route)
             res = self.memo.get(ck)
@@ -523,11 +764,30 @@ class Monitor:
         obs = self.obs
         lang = opts["lang"]
         nd = G.nsdata(lang)
-        table, reasons = M.expected_table(pages, opts["selected"], nd["template"])
+        table, reasons, allp = expected(pages, opts)
         # --- what the workload contains (observation counters)
         shapes = set()
         seen = {}
-        for p in pages:
+        pre = opts.get("pre") or {}
+        reads = list(pre.get("reads0") or ()) + list(pre.get("reads1") or ())
+        obs.count("ctx.used" if pre else "ctx.fresh")
+        if pre:
+            obs.count("ctx.reads", len(reads))
+            for rd in reads:
+                obs.count("ctx.read." + rd[0])
+                obs.add("read_relations", read_relation(rd, allp, lang))
+            if pre.get("earlier_route"):
+                obs.count("ctx.second-ingestion")
+                obs.count("ctx.earlier_route=" + pre["earlier_route"])
+                if pre.get("reads1"):
+                    obs.count("ctx.reads-between-dumps")
+            # the dump under test defines a helper template that the context looked up (and did not find) before
+            helper_keys = {(nd["template"] + ":" + n, 10) for n in M.DEFAULTS}
+            asked0 = {(rd[1], rd[2]) for rd in pre.get("reads0") or () if rd[0] != "expand"} & helper_keys
+            own = {(p["title"], p["ns"]) for p in allp if p.get("phase") != 0 and reasons[p["uid"]] is None} & helper_keys
+            if asked0 & own:
+                obs.count("ctx.helper-looked-up-before-the-dump-that-defines-it")
+        for p in allp:
             r = reasons[p["uid"]]
             fe = info["feats"].get(p["uid"], set())
             obs.count("pages.written")
@@ -544,6 +804,8 @@ class Monitor:
                     obs.count("tbody." + f[6:])
                 elif f.startswith("dup:"):
                     obs.count("dup." + f[4:])
+                elif f.startswith("xdup:"):
+                    obs.count("dup.across-dumps." + f[5:])
             if r is None:
                 obs.count("pages.expected-stored")
                 obs.count("kept.redirect" if p.get("redirect") is not None else
@@ -553,6 +815,10 @@ class Monitor:
             else:
                 obs.count("excluded." + r)
             k = (p["title"], p["ns"])
+            if k in seen and seen[k].get("phase") == 0 and p.get("phase") != 0:
+                obs.count("dup.across-dumps")
+                if r is None and reasons[seen[k]["uid"]] is None:
+                    obs.count("dup.across-dumps.both-stored")
             if k in seen:
                 obs.count("dup.pairs")
                 if r is None and reasons[seen[k]["uid"]] is None and (seen[k]["text"], seen[k]["redirect"]) != (p["text"], p["redirect"]):
@@ -584,7 +850,7 @@ class Monitor:
         obs.count("dumps")
         nstored = sum(1 for e in table.values() if e["default"] is None)
         nexcl = sum(1 for r in reasons.values() if r is not None)
-        key = [[p["title"], p["ns"], p["model"], h64(p["text"]), p["redirect"]] for p in pages] + [opts]
+        key = [[p["title"], p["ns"], p["model"], h64(p["text"]), p["redirect"], p.get("phase")] for p in pages] + [opts]
         obs.case(key, nontrivial=(nstored >= 1 and nexcl >= 1 and len(shapes) >= 3),
                  sample={"gen": gen, "opts": opts, "npages": len(pages), "expected_stored": nstored, "excluded": nexcl,
                          "titles": [p["title"] for p in pages[:8]]})
@@ -602,7 +868,7 @@ class Monitor:
             obs.maxi("dump_xml_bytes_max", r["raw"])
             if diffs:
                 obs.count("dumps-with-disagreement." + route)
-                self.handle(diffs, pages, opts, info, route, gen)
+                self.handle(diffs, pages, opts, info, route, gen, second=sec)
             total += len(diffs)
         return total
 
@@ -631,16 +897,22 @@ def run_shard(spec):
         lang = G.LANGS[i % len(G.LANGS)]
         for variant in range(3):
             pages, opts, info = G.sweep_dump(rng, lang, variant + 3 * (i // len(G.LANGS)))
+            if variant == 1:
+                pages = G.used_context(rng, lang, pages, opts, info, p_used=1.0, p_earlier=0.5)
             selfcheck(obs, pages, info)
             mon.check_dump(pages, opts, info, "sweep", second=True)
         for k in range(spec["n"]):
             pages, opts, info = G.random_dump(rng, npages=rng.choice([12, 40, 40, 40]))
+            pages = G.used_context(rng, opts["lang"], pages, opts, info)
             selfcheck(obs, pages, info)
             mon.check_dump(pages, opts, info, "random", second=(k % 3 == 0))
     finally:
         mon.close()
     obs.anchors.update(anchors.snapshot())
     obs.count("ingestions", mon.runner.runs)
+    obs.count("ctx.reads-executed(incl. minimisation)", mon.runner.reads_done)
+    for k, v in mon.runner.read_raised.items():
+        obs.count("ctx.read-raised:" + k, v)
     return obs
 
 
@@ -652,9 +924,12 @@ def replay(case):
         out = []
         for route in ([case["route"]] if case.get("route") else ROUTES):
             diffs, table, r = evaluate(mon.runner, pages, opts, route, second=True)
+            explained, (pages2, diffs) = split_by_main_prefix(mon.runner, diffs, pages, opts, route, True)
+            for d in explained:
+                out.append((MAIN_PREFIX_SIG, d["detail"]))
             for d in diffs:
                 uid = d["uids"][0] if d["uids"] else None
-                res = Minimiser(mon.runner).minimise(pages, opts, route, uid, d["rule"])
+                res = Minimiser(mon.runner).minimise(pages2, opts, route, uid, d["rule"])
                 if res is None:
                     out.append((d["rule"] + "/not-reproduced-on-rerun", d["detail"]))
                 else:
